@@ -25,6 +25,11 @@ NEWNAMES.append(["AB", "BD", "ABD", "BA", "DA", "DAB", "AD", "XY", "YU", "US", "
                  "XPCR", "APC", "BDP", "ACC", "DCC", "SP", "UX9"])
 
 
+# names with an underscore: the label field accepts them, so every reference to them has to as well
+NEWNAMES.append(["MY_LOOP", "_START", "END_", "A_B", "X_1", "TBL_2", "L_", "_", "__", "S_T_U", "PRINT_CH", "GET_KEY", "VAR_A", "VAR_B", "TMP_1", "TMP_2", "IO_PORT",
+                 "X_Y", "A_", "_B", "D_D", "PC_R", "LOOP_1", "LOOP_2", "DONE_", "N_1", "N_2", "N_3", "Q_Q", "Z_9"])
+
+
 def setup(ctx):
     asmmon.install()
 
